@@ -31,7 +31,10 @@ func genCase(t *rapid.T) *stackCase {
 	p := rep.GenProfile(t, opts)
 	c := &stackCase{P: p, Web: rapid.Bool().Draw(t, "web")}
 	c.C = rep.GenConf(t, p, []string{"top"})
-	c.C.Mean, c.C.TagRoot, c.C.TagLeaf = false, nil, nil
+	c.C.Mean = false
+	if !c.Web {
+		c.C.TagRoot, c.C.TagLeaf = nil, nil // the pseudo frames of -tagroot/-tagleaf are added by the driver
+	}
 	c.Idx = rapid.IntRange(0, len(p.SampleTypes)-1).Draw(t, "idx")
 	return c
 }
@@ -262,7 +265,8 @@ func check(c *stackCase, o *vk.Obs) []string {
 	if !ok {
 		return nil
 	}
-	fl := map[string]string{}
+	fl := map[string]string{"tagroot": strings.Join(c.C.TagRoot, ","), "tagleaf": strings.Join(c.C.TagLeaf, ",")}
+	o.LabelIf(len(c.C.TagRoot)+len(c.C.TagLeaf) > 0, "tagroot/tagleaf")
 	w, err := pp.StartWeb(pp.Req{Flags: fl, Args: []string{"src"}, Sources: map[string]*pp.Source{"src": {Prof: p}}})
 	if err != nil {
 		e.Addf("web interface did not start: %v", err)
